@@ -243,7 +243,7 @@ func runC07(c *core.Ctx) {
 		r := newRand(c.Seed, 7)
 		var pick [][]string
 		for _, s := range sets {
-			if len(s) == 1 || r.IntN(100) < 45 {
+			if len(s) == 1 || r.IntN(100) < 100 {
 				pick = append(pick, s)
 			}
 		}
@@ -295,7 +295,7 @@ func runC07(c *core.Ctx) {
 		w.Goit("commit", "-m", "third (nothing)")
 	})
 	// (b) random histories
-	n := c.Pick(100, 2000)
+	n := c.Pick(400, 3000)
 	base := len(sets)
 	c.RunHistories(n, Registry["C07"].Mons, func(w *core.World) {
 		w.Hist += base
@@ -577,7 +577,7 @@ func writeIgnoreScenario(k *Walker) {
 }
 
 func runC13(c *core.Ctx) {
-	n := c.Pick(120, 3000)
+	n := c.Pick(500, 4000)
 	c.RunHistories(n, Registry["C13"].Mons, func(w *core.World) {
 		wts := map[string]int{
 			"edit-new": 12, "edit-mod": 12, "edit-rm": 6, "edit-rmdir": 3, "edit-same": 2, "edit-touch": 2,
